@@ -7,7 +7,8 @@
    lock-acquiring action.  Children are named by creation event (the allocator reuses addresses). *)
 EXTENDS Integers, Sequences, FiniteSets, TLC
 
-CONSTANTS Threads, Script, Keys, Flavor, MaxId
+CONSTANTS Threads, Script, Keys, Flavor, MaxId,
+          RefAmounts   \* amounts used by the scripts (witnesses for the refinement check)
 \* op = [k |-> "with", key, h] | [k |-> "hinc", h, v] | [k |-> "hget", h] | [k |-> "remove", key] | [k |-> "reset"] | [k |-> "collect"]
 
 VARIABLES map,     \* [Keys -> 0..MaxId]   0 = no child
@@ -154,5 +155,12 @@ FreshHandleIsCurrent ==
        (lockW = t => map[Op(t).key] = loc[t].hit)
 \* children are created only under the write lock, ids are never reused
 IdsBounded == nid <= MaxId
+
+(* ---------------- refinement: VecImpl implements the atomic map Vec ---------------- *)
+\* abstract children: the label-value tuple <<k>> of every key that currently has a child, with that child's value.
+\* Updates through handles of removed children change nothing visible (stuttering steps of Vec).
+AbsChildren == [t \in {<<k>> : k \in {x \in Keys : map[x] # 0}} |-> vals[map[t[1]]]]
+VecAbs == INSTANCE Vec WITH children <- AbsChildren, Arity <- 1, Tuples <- {<<k>> : k \in Keys}, Amounts <- RefAmounts
+RefinesVec == VecAbs!Spec
 Termination == <>AllDone
 =============================================================================
